@@ -11,22 +11,30 @@ fn a(s: &str) -> Alias { Alias::new(s) }
 
 type Call<S> = (&'static str, fn(&mut S, u64));
 
+/// a nested statement that has the clauses the outer clearers remove, so that a clear reaching into nested statements shows
+fn nested(k: u64) -> SelectStatement {
+    let mut q = Query::select();
+    q.column(a("uc")).from(a("ut")).order_by(a("uo"), if k % 2 == 0 { Order::Desc } else { Order::Asc }).limit(k % 3 + 1).offset(k % 2 + 1);
+    if k % 4 == 0 { q.union(UnionType::All, Query::select().column(a("vc")).from(a("vt")).order_by(a("vo"), Order::Asc).limit(2).to_owned()); }
+    q
+}
+
 fn select_calls() -> Vec<Call<SelectStatement>> {
     vec![
         ("distinct", |s, _| { s.distinct(); }),
         ("selects", |s, k| { if k % 2 == 0 { s.column(a("c1")); } else { s.expr_as(Expr::col(a("c2")).add(k as i32), a("e")); } }),
-        ("from", |s, k| { s.from(a(if k % 2 == 0 { "t" } else { "u" })); }),
+        ("from", |s, k| { if k % 3 == 2 { s.from_subquery(nested(k), a("sq")); } else { s.from(a(if k % 2 == 0 { "t" } else { "u" })); } }),
         ("join", |s, k| { s.left_join(a("j"), Expr::col((a("j"), a("id"))).equals((a("t"), a("id"))).and(Expr::col(a("x")).eq(k as i32))); }),
         ("where", |s, k| { s.and_where(Expr::col(a("w")).eq(k as i32)); }),
         ("groups", |s, _| { s.group_by_col(a("g")); }),
         ("having", |s, k| { s.and_having(Expr::col(a("h")).gt(k as i32)); }),
-        ("unions", |s, k| { s.union(if k % 2 == 0 { UnionType::All } else { UnionType::Distinct }, Query::select().column(a("uc")).from(a("ut")).to_owned()); }),
+        ("unions", |s, k| { s.union(if k % 2 == 0 { UnionType::All } else { UnionType::Distinct }, nested(k)); }),
         ("orders", |s, k| { s.order_by(a("o"), if k % 2 == 0 { Order::Asc } else { Order::Desc }); }),
         ("limit", |s, k| { s.limit(k % 7 + 1); }),
         ("offset", |s, k| { s.offset(k % 5 + 1); }),
         ("lock", |s, _| { s.lock(LockType::Update); }),
         ("window", |s, _| { s.window(a("w"), WindowStatement::partition_by(a("p"))); }),
-        ("with", |s, _| { s.with_cte(CommonTableExpression::new().query(Query::select().column(a("cc")).from(a("ct")).to_owned()).table_name(a("cte")).to_owned()); }),
+        ("with", |s, _| { s.with_cte(CommonTableExpression::new().query(nested(7)).table_name(a("cte")).to_owned()); }),
         ("table_sample", |s, k| { s.table_sample(SampleMethod::SYSTEM, (k % 50) as f64, None); }),
         ("index_hints", |s, _| { s.use_index(a("ix"), IndexHintScope::All); }),
     ]
